@@ -3,6 +3,7 @@ package main
 // Statements, control flow, loops.
 
 import (
+	"go/printer"
 	"fmt"
 	"go/ast"
 	"go/token"
@@ -241,7 +242,53 @@ var opAssign = map[token.Token]token.Token{token.ADD_ASSIGN: token.ADD, token.SU
 	token.SHR_ASSIGN: token.SHR, token.SHL_ASSIGN: token.SHL, token.AND_ASSIGN: token.AND, token.XOR_ASSIGN: token.XOR,
 	token.MUL_ASSIGN: token.MUL, token.QUO_ASSIGN: token.QUO, token.REM_ASSIGN: token.REM, token.AND_NOT_ASSIGN: token.AND_NOT}
 
+func (c *Ctx) stmtText(s ast.Stmt) string {
+	var sb strings.Builder
+	printer.Fprint(&sb, c.fset, s)
+	return sb.String()
+}
+
+// exec runs a statement; inline assertions of the contract (assert … at `text`) are attached to simple statements
 func (c *Ctx) exec(s ast.Stmt, st *State) Flow {
+	if c.spec == nil || len(c.spec.Asserts) == 0 || c.depth > 0 {
+		return c.exec1(s, st)
+	}
+	var hits []*AssertClause
+	before := false
+	switch s.(type) {
+	case *ast.BranchStmt, *ast.ReturnStmt, *ast.AssignStmt, *ast.ExprStmt, *ast.IncDecStmt, *ast.DeclStmt:
+		switch s.(type) {
+		case *ast.BranchStmt, *ast.ReturnStmt:
+			before = true
+		}
+		txt := c.stmtText(s)
+		for _, a := range c.spec.Asserts {
+			if strings.Contains(txt, a.At) {
+				hits = append(hits, a)
+			}
+		}
+	}
+	emit := func(at *State) {
+		for _, a := range hits {
+			c.assertSeen[a] = true
+			g := c.specBool(&a.Clause, &SpecEnv{c: c, st: at, entry: c.entry, at: s.End()})
+			c.addObl(Obl{Name: fmt.Sprintf("%s/assert[%s]", c.unit, a.Label), Kind: "assert", Guard: at.guard, Goal: g, Pos: c.pos(s.Pos()), Text: a.Text + "  (at `" + a.At + "`)"})
+		}
+	}
+	if before && len(hits) > 0 {
+		emit(st)
+	}
+	f := c.exec1(s, st)
+	if !before && len(hits) > 0 {
+		if nx := c.one(f); nx != nil {
+			emit(nx)
+			return Flow{next: nx, brk: f.brk, cont: f.cont}
+		}
+	}
+	return f
+}
+
+func (c *Ctx) exec1(s ast.Stmt, st *State) Flow {
 	c.curPos = s.Pos()
 	if c.stmtHook != nil {
 		if f, ok := c.stmtHook(c, s, st); ok {
